@@ -214,6 +214,17 @@ CHECKS = {
             "(12 per configuration quick, 240 thorough).",
             "TLA+ transcription of RFC 9380: TLC on toy fields + real-scale TLC trace validation with hash-table oracles",
             "5/C14"),
+    "C15": ("model_checking",
+            "Ecvrf.tla states the algebra of RFC 9381 proving/verifying with the hashes as arguments; TLC checks on toy curves for EVERY key x "
+            "input point x nonce x challenge value: completeness whatever the hash, the exact effect of a torsion-shifted Gamma, uniqueness "
+            "of the output point, refusal of s + l and of small-order keys. At real scale TLC recomputes recorded proofs byte for byte from "
+            "the seed (both challenge formats, added randomness) and re-decides recorded verifications from the bytes: honest, cross-version, "
+            "bit flips, s+L, other key/alpha, short, torsion-shifted Gamma built with the secret, small-order-key forgeries for all 8 torsion "
+            "points under both formats, non-canonical Gamma/key; verify's output must equal proof_to_hash.",
+            "Trusts TLC/SANY, BigNat/F25519/Edwards, the H2C/Elligator modules (C14), SHA-512 as a table (inputs rebuilt by the spec). "
+            "Each real-scale proof/verification costs 10-16 s of TLC time: 2 proof families per run quick, 32 x 4 configurations thorough.",
+            "TLA+ RFC 9381 spec: exhaustive TLC at toy scale + real-scale TLC trace validation of recorded proofs and verifications",
+            "5/C15"),
 }
 
 NOT_YET = "check not built yet in this round (planned, see DESIGN.md section 11); not claimed until its machinery exists"
